@@ -318,9 +318,16 @@ func c16Check(inputs []any, excludeKnown bool) {
 // HarnessC16_pair: two inputs, maps of depth <= 2.
 func HarnessC16_pair() {
 	if vTier() > 0 {
-		a := ndMap(2, keysAB, 1, ndScalarNN)
-		b := ndMap(2, keysAB, 1, ndScalarNN)
-		c16Check([]any{a, b}, true)
+		// thorough: a map of depth <= 2 against a flat map, in both
+		// argument orders (lists: [] only; lists with entries are
+		// HarnessC16_lists' subject)
+		a := ndMap(2, keysAB, 0, ndScalarNN)
+		b := ndMap(1, keysAB, 0, ndScalarNN)
+		if ndChoice(2) == 1 {
+			c16Check([]any{b, a}, true)
+		} else {
+			c16Check([]any{a, b}, true)
+		}
 		return
 	}
 	// quick: key "a" holds a scalar, a flat map or a list of <= 1 entry;
